@@ -370,7 +370,7 @@ Cloud genCloud(vf::Ctx & c)
 }
 
 template<class PointType>
-void preconditionerOn(vf::Ctx & c, const Cloud & cl, const char * typeName)
+void preconditionerOn(vf::Ctx & c, const Cloud & cl, const char * typeName, bool reusedObject)
 {
   using S = typename PointType::Scalar;
   constexpr int DIM = PointTraits<PointType>::DIM;
@@ -382,7 +382,20 @@ void preconditionerOn(vf::Ctx & c, const Cloud & cl, const char * typeName)
     if (SIZE > DIM) {q[SIZE - 1] = S(1);}
     set.push_back(q);
   }
-  PointSetPreconditioner<PointType> pre(set);
+  // the preconditioner object has a past: it first processed a larger, unrelated set (positive, far away), so that
+  // extrema or sums left over from an earlier compute() would show; results must be those of the current set only
+  PointSetPreconditioner<PointType> pre;
+  if (reusedObject) {
+    PointSet<PointType> other;
+    for (size_t k = 0; k < 2 * set.size() + 3; ++k) {
+      PointType q;
+      for (int d = 0; d < DIM; ++d) {q[d] = static_cast<S>(1e5 + 37.0 * static_cast<double>(k % 11) + d);}
+      if (SIZE > DIM) {q[SIZE - 1] = S(1);}
+      other.push_back(q);
+    }
+    pre.compute(other);
+  }
+  pre.compute(set);
   S mn[4], mx[4];
   LD sum[4];
   for (int d = 0; d < SIZE; ++d) {mn[d] = set[0][d]; mx[d] = set[0][d]; sum[d] = 0;}
@@ -416,16 +429,18 @@ void pointSetBody(vf::Ctx & c)
 {
   Cloud cl = genCloud(c);
   int type = static_cast<int>(c.s.i("point_type", 0, 7));
+  bool reused = c.s.flag("preconditioner_object_reused");
+  if (reused) {c.label("preconditioner-object-reused");}
   c.commit();
   switch (type) {
-    case 0: c.label("Vector2f"); preconditionerOn<Eigen::Vector2f>(c, cl, "Vector2f"); break;
-    case 1: c.label("Vector2d"); preconditionerOn<Eigen::Vector2d>(c, cl, "Vector2d"); break;
-    case 2: c.label("Vector3f"); preconditionerOn<Eigen::Vector3f>(c, cl, "Vector3f"); break;
-    case 3: c.label("Vector3d"); preconditionerOn<Eigen::Vector3d>(c, cl, "Vector3d"); break;
-    case 4: c.label("Homogeneous2f"); preconditionerOn<HomogeneousCoordinates2f>(c, cl, "Homogeneous2f"); break;
-    case 5: c.label("Homogeneous2d"); preconditionerOn<HomogeneousCoordinates2d>(c, cl, "Homogeneous2d"); break;
-    case 6: c.label("Homogeneous3f"); preconditionerOn<HomogeneousCoordinates3f>(c, cl, "Homogeneous3f"); break;
-    default: c.label("Homogeneous3d"); preconditionerOn<HomogeneousCoordinates3d>(c, cl, "Homogeneous3d"); break;
+    case 0: c.label("Vector2f"); preconditionerOn<Eigen::Vector2f>(c, cl, "Vector2f", reused); break;
+    case 1: c.label("Vector2d"); preconditionerOn<Eigen::Vector2d>(c, cl, "Vector2d", reused); break;
+    case 2: c.label("Vector3f"); preconditionerOn<Eigen::Vector3f>(c, cl, "Vector3f", reused); break;
+    case 3: c.label("Vector3d"); preconditionerOn<Eigen::Vector3d>(c, cl, "Vector3d", reused); break;
+    case 4: c.label("Homogeneous2f"); preconditionerOn<HomogeneousCoordinates2f>(c, cl, "Homogeneous2f", reused); break;
+    case 5: c.label("Homogeneous2d"); preconditionerOn<HomogeneousCoordinates2d>(c, cl, "Homogeneous2d", reused); break;
+    case 6: c.label("Homogeneous3f"); preconditionerOn<HomogeneousCoordinates3f>(c, cl, "Homogeneous3f", reused); break;
+    default: c.label("Homogeneous3d"); preconditionerOn<HomogeneousCoordinates3d>(c, cl, "Homogeneous3d", reused); break;
   }
 }
 
